@@ -419,6 +419,8 @@ def run(rep):
     # "str() compares the canonical decimal text": the constant side is rendered by the loader's number lowering (shared with C02)
     # numbers reach the solver through the adapters: the accessor must agree with its guard over the whole 64-bit range (shared with C11)
     core.import_rules(rep, "c11", {"T-NUMBER"})
+    # no optimiser pass touches a comparison: operands and operator stay as written (every arm of every pass is reviewed)
+    core.import_rules(rep, "c01", {"PASS-ARMS", "ORDER-AND"}, key_prefixes=("PASS-ARMS/", "ORDER-AND/shake_0/"))
     core.import_rules(rep, "c02", {"T-YAML"}, key_prefixes=("T-YAML/single/Number", "T-YAML/list/Number", "T-YAML/"))
     rep.extra["casts_classified"] = ncasts
     if rep.tier == "thorough":
